@@ -72,7 +72,7 @@ def cases(draw):
             "proxy_headers": proxy_headers, "body": body, "reply": reply, "method": draw(st.sampled_from(["GET", "POST", "PUT"])),
             "ext_target": draw(st.sampled_from([None, None, None, None, b"*"])),
             "target": draw(st.sampled_from(["/", "/t/x0?q=1", "/a;p=1/b"])), "sync": draw(st.booleans()),
-            "second": draw(st.booleans())}
+            "second": draw(st.booleans()), "resend_object": draw(st.booleans())}
 
 
 MARK_PROXY = (b"PXH", b"PXU", b"PXP")
@@ -103,16 +103,40 @@ def execute(case) -> Outcome:
     spec = {"method": case["method"], "url": url, "headers": hdrs, "content": body, "ext_target": case["ext_target"]}
     spec2 = {"method": "GET", "url": f"{scheme}://{host}" + (f":{port}" if port is not None else "") + "/t/c1", "headers": [["x-tok", "c1"], ["X-Second", "CLH-second"]]}
     outs = []
+    # one hand-made Request OBJECT sent twice (a caller that retries): both transmissions must look the same on the proxy hop
+    import httpcore as _hc
+
+    url3 = f"{scheme}://{host}" + (f":{port}" if port is not None else "") + "/t/c2?again=1"
+    resend = bool(case.get("resend_object")) and kind in ("http", "https") and scheme == "http"
+    resend_excs = []
     if case["sync"]:
         outs.append(sync_request(pool, spec))
         if case["second"]:
             outs.append(sync_request(pool, spec2))
+        if resend:
+            req3 = _hc.Request("GET", url3, headers=[(b"Host", host.encode()), (b"x-tok", b"c2"), (b"X-Third", b"CLH-third")])
+            for _ in range(2):
+                try:
+                    r3 = pool.handle_request(req3)
+                    r3.read()
+                    r3.close()
+                except Exception as exc:
+                    resend_excs.append(type(exc).__name__)
         pool.close()
     else:
         async def go():
             outs.append(await async_request(pool, spec))
             if case["second"]:
                 outs.append(await async_request(pool, spec2))
+            if resend:
+                req3 = _hc.Request("GET", url3, headers=[(b"Host", host.encode()), (b"x-tok", b"c2"), (b"X-Third", b"CLH-third")])
+                for _ in range(2):
+                    try:
+                        r3 = await pool.handle_async_request(req3)
+                        await r3.aread()
+                        await r3.aclose()
+                    except Exception as exc:
+                        resend_excs.append(type(exc).__name__)
             await pool.aclose()
 
         run_async(go())
@@ -150,7 +174,8 @@ def execute(case) -> Outcome:
             ex = exs[0]
             c = ref_split(ex["target"])
             exp_target = case["target"].encode() if case["ext_target"] is None else case["ext_target"]
-            got_origin = (c["scheme"], (c["host"] or b"").lower(), int(c["port"]) if c["port"] else DEFAULT_PORT.get((c["scheme"] or b"").decode()))
+            port_ok = not c["port"] or c["port"].isdigit()
+            got_origin = (c["scheme"], (c["host"] or b"").lower(), (int(c["port"]) if c["port"] else DEFAULT_PORT.get((c["scheme"] or b"").decode())) if port_ok else c["port"])
             got_target = (c["path"] or b"") + ((b"?" + c["query"]) if c["query"] else b"")
             if case["ext_target"] is not None:
                 tags.append("forward-with-target-extension-unjudged")  # no defined behaviour: the caller replaced the target
@@ -187,6 +212,19 @@ def execute(case) -> Outcome:
                     vio.append(V(P, "forward-headers-second-request", f"{what}: the second forwarded request carried {exs2[0]['headers']!r}, expected the merge "
                                  f"{merged2!r} (headers of an earlier request must not reappear)", mode=mode))
                 tags.append("second-forwarded-request")
+        if resend:
+            exs3 = [e for p_ in world.pipes for e in p_.peer.exchanges if e["token"] == "c2"]
+            tags.append("request-object-sent-twice")
+            if len(exs3) == 2:
+                t1, t2 = exs3[0]["target"], exs3[1]["target"]
+                c3 = ref_split(t2)
+                if t1 != t2 or [(n.lower(), v) for n, v in exs3[0]["headers"]] != [(n.lower(), v) for n, v in exs3[1]["headers"]]:
+                    vio.append(V(P, "forward-resent-object", f"{what}: the same Request object sent twice through the forwarding proxy went out as "
+                                 f"{t1!r} {exs3[0]['headers']!r} and then as {t2!r} {exs3[1]['headers']!r}", mode=mode))
+                elif (c3["scheme"], (c3["host"] or b"").lower()) != (scheme.encode(), host.encode()):
+                    vio.append(V(P, "forward-target", f"{what}: request line target {t2!r} of a hand-made Request does not name {scheme}://{host}", mode=mode))
+            elif not resend_excs and 200 <= case["reply"].get("status", 200) < 600:
+                vio.append(V(P, "forward-resent-object", f"{what}: the same Request object was sent twice but the proxy saw {len(exs3)} request(s) for it", mode=mode))
     elif kind in ("http", "https"):
         # ------------------------------------------------------------------ CONNECT tunnel
         mode = "tunnel"
